@@ -107,6 +107,10 @@ def to_str(interp, v: Any, opaque_ok: bool = False) -> Any:
             m = interp.lookup_class_attr(v.cls, "__repr__")
         if m is not MISSING:
             return interp.call(interp.bind(m, v, v.cls), [], {})
+        if v.cls.is_enum and "_name_" in v.attrs:
+            return f"{v.cls.name}.{v.attrs['_name_']}"
+        if "args" in v.attrs and any(isinstance(c, ExtRef) and c.name.startswith("builtins.") and _is_exc_name(c.name.split(".")[-1]) for c in v.cls.mro):
+            return to_str(interp, ExtObj("exc:" + next(c.name.split(".")[-1] for c in v.cls.mro if isinstance(c, ExtRef) and _is_exc_name(c.name.split(".")[-1])), {"args": v.attrs["args"]}), opaque_ok)
         return sstr(Atom(f"str({v.cls.name}#{v.uid})"))
     if isinstance(v, ExtObj):
         from . import models_rdflib
@@ -114,6 +118,17 @@ def to_str(interp, v: Any, opaque_ok: bool = False) -> Any:
         r = models_rdflib.str_of(interp, v)
         if r is not MISSING:
             return r
+    if isinstance(v, ExtObj) and v.kind.startswith("exc:"):
+        a = v.attrs.get("args", ())
+        if len(a) == 0:
+            return ""
+        if len(a) == 1:
+            return to_repr(interp, a[0]) if v.kind == "exc:KeyError" else to_str(interp, a[0], opaque_ok)
+        return to_repr(interp, tuple(a))
+    if isinstance(v, bytes):
+        return str(v)
+    if isinstance(v, (tuple, AList, ADict, ASet)):
+        return to_repr(interp, v)
     if isinstance(v, Unknown):
         return sstr(Atom(f"str({v.hint or v.key})", nonempty=None))
     if opaque_ok:
@@ -126,10 +141,44 @@ def to_repr(interp, v: Any) -> Any:
         m = interp.lookup_class_attr(v.cls, "__repr__")
         if m is not MISSING:
             return interp.call(interp.bind(m, v, v.cls), [], {})
-    if isinstance(v, str):
+    if isinstance(v, EnumInt):
+        return f"<{v.cls.name}.{v.member}: {int(v)}>"
+    if isinstance(v, (str, bytes)):
         return repr(v)
     if isinstance(v, (int, float, bool)) or v is None:
         return repr(v)
+    if isinstance(v, Obj) and v.cls.is_enum and "_name_" in v.attrs:
+        return sstr(f"<{v.cls.name}.{v.attrs['_name_']}: ", to_repr(interp, v.attrs["_value_"]), ">")
+    if isinstance(v, Obj) and any(isinstance(c, ClassInfo) and c.dataclass is not None for c in v.cls.mro):
+        parts: list = [v.cls.name + "("]
+        for i, (n, _d) in enumerate(interp.dataclass_fields(v.cls)):
+            parts += [", " if i else "", n + "=", to_repr(interp, v.attrs.get(n))]
+        return sstr(*parts, ")")
+    if isinstance(v, Obj) and v.tuple_items is not None and v.cls.is_namedtuple:
+        parts = [v.cls.name + "("]
+        for i, (n, x) in enumerate(zip(v.cls.nt_fields, v.tuple_items)):
+            parts += [", " if i else "", n + "=", to_repr(interp, x)]
+        return sstr(*parts, ")")
+    if isinstance(v, (tuple, AList)) and not (isinstance(v, AList) and v.kind != "list"):
+        items = list(v) if isinstance(v, tuple) else v.items
+        o, c = ("(", ")") if isinstance(v, tuple) else ("[", "]")
+        parts = [o]
+        for i, x in enumerate(items):
+            parts += [", " if i else "", to_repr(interp, x)]
+        if isinstance(v, tuple) and len(items) == 1:
+            parts.append(",")
+        return sstr(*parts, c)
+    if isinstance(v, ADict) and v.kind == "dict":
+        parts = ["{"]
+        for i, (k_, x) in enumerate(v.pairs):
+            parts += [", " if i else "", to_repr(interp, k_), ": ", to_repr(interp, x)]
+        return sstr(*parts, "}")
+    if isinstance(v, ExtObj) and v.kind.startswith("exc:"):
+        a = v.attrs.get("args", ())
+        inner = to_repr(interp, tuple(a))
+        if len(a) == 1:
+            return sstr(v.kind[4:], "(", to_repr(interp, a[0]), ")")
+        return sstr(v.kind[4:], inner)
     return sstr(Atom("repr", nonempty=True))
 
 
@@ -229,6 +278,11 @@ def call_ext(interp, name: str, args: list, kwargs: dict) -> Any:
     fn = _EXT.get(name)
     if fn is not None:
         return fn(interp, args, kwargs)
+    from . import models_std
+
+    r = models_std.call(interp, name, args, kwargs)
+    if r is not models_std.MISSING:
+        return r
     if name.startswith("rdflib"):
         from . import models_rdflib
 
@@ -371,6 +425,14 @@ def _b_hash(interp, args, kwargs):
         m = interp.lookup_class_attr(v.cls, "__hash__")
         if m is not MISSING and m is not None:
             return interp.call(interp.bind(m, v, v.cls), [], {})
+        if v.tuple_items is not None or any(isinstance(c, ClassInfo) and c.dataclass is not None for c in v.cls.mro):
+            from .freeze import freeze
+
+            return Unknown(("hash", repr(freeze(v))), "hash()")
+    from . import models_std
+
+    if models_std.is_concrete(v) and not isinstance(v, (str, bytes)) and not (isinstance(v, tuple) and any(isinstance(x, (str, bytes)) for x in v)):
+        return hash(v)
     return Unknown(("hash", repr(v)), "hash()")
 
 
@@ -423,12 +485,32 @@ def _b_dict(interp, args, kwargs, kind="dict"):
     return d
 
 
+def sort_items(interp, items: list, key: Any, reverse: Any, what: str) -> list:
+    """Stable sort of abstract items.  Concrete comparable keys: the host order.  Keys that are unrelated symbolic
+    strings: the order depends on the data - two feasible outcomes are explored (source order / reversed)."""
+    from . import models_std
+
+    rev = interp.truth(reverse, "sorted-reverse") if reverse is not None else False
+    keys = [interp.call(key, [x], {}) if key is not None else x for x in items]
+    if len(items) <= 1:
+        return list(items)
+    if all(models_std.is_concrete(k_) for k_ in keys):
+        try:
+            order = sorted(range(len(items)), key=lambda i: keys[i], reverse=rev)
+        except TypeError as e:
+            raise interp.exc("TypeError", str(e))
+        return [items[i] for i in order]
+    if all(isinstance(k_, (SStr, str)) for k_ in keys) or all(isinstance(k_, ExtObj) and k_.kind.startswith("rdflib") for k_ in keys) or all(isinstance(k_, (Obj, Unknown)) for k_ in keys):
+        interp.emit("reorder", what=what)
+        if interp.choose(2, f"{what}:order-of-symbolic-keys") == 0:
+            return list(items)
+        return list(items)[::-1]
+    raise interp.unsupported(f"{what} with keys of mixed abstraction {keys!r}")
+
+
 def _b_sorted(interp, args, kwargs):
     items = _materialise(interp, args[0], "sorted")
-    interp.emit("reorder", what="sorted")
-    if all(isinstance(x, (int, str)) for x in items) and "key" not in kwargs:
-        return AList(sorted(items, reverse=bool(kwargs.get("reverse", False))))
-    return AList(items)
+    return AList(sort_items(interp, items, kwargs.get("key"), kwargs.get("reverse"), "sorted"))
 
 
 def _b_reversed(interp, args, kwargs):
@@ -495,9 +577,23 @@ def _b_all(interp, args, kwargs):
 
 def _b_minmax(which):
     def f(interp, args, kwargs):
-        items = args if len(args) > 1 else interp.drain(args[0])
-        if all(isinstance(x, (int, float)) for x in items) and items:
-            return (min if which == "min" else max)(items)
+        from . import models_std
+
+        items = list(args) if len(args) > 1 else interp.drain(args[0])
+        key = kwargs.get("key")
+        if not items:
+            if "default" in kwargs:
+                return kwargs["default"]
+            raise interp.exc("ValueError", f"{which}() arg is an empty sequence")
+        keys = [interp.call(key, [x], {}) if key is not None else x for x in items]
+        if all(models_std.is_concrete(k_) for k_ in keys):
+            try:
+                pick = (min if which == "min" else max)(range(len(items)), key=lambda i: keys[i])
+            except TypeError as e:
+                raise interp.exc("TypeError", str(e))
+            return items[pick]
+        if len(items) == 1:
+            return items[0]
         return fresh_unknown(which)
 
     return f
@@ -532,6 +628,11 @@ def _b_bytearray(interp, args, kwargs):
         return AList(list(v), kind="bytearray")
     if isinstance(v, AList) and all(isinstance(x, int) for x in v.items):
         return AList(list(v.items), kind="bytearray")
+    if isinstance(v, int) and not isinstance(v, bool):
+        interp.emit("alloc", what="bytearray(n)", size=v)
+        if v > 1 << 16:
+            raise interp.unsupported("bytearray of more than 64 KiB")
+        return AList([0] * v, kind="bytearray")
     raise interp.unsupported(f"bytearray({v!r})")
 
 
@@ -580,6 +681,26 @@ def _suppress(interp, args, kwargs):
 
 def _ordereddict(interp, args, kwargs):
     return _b_dict(interp, args, kwargs, kind="OrderedDict")
+
+
+def _namedtuple(interp, args, kwargs):
+    name, fields = args[0], args[1]
+    if isinstance(fields, str):
+        fields = fields.replace(",", " ").split()
+    else:
+        fields = list(interp.drain(fields))
+    if not isinstance(name, str) or not all(isinstance(f, str) for f in fields):
+        raise interp.unsupported("namedtuple with non-constant field names")
+    cls = ClassInfo(name, name, interp.site[0] if interp.site else "", None, [ExtRef("builtins.tuple")])
+    cls.is_namedtuple = True
+    cls.nt_fields = fields
+    defaults = kwargs.get("defaults")
+    if defaults is not None:
+        dv = list(interp.drain(defaults))
+        for f_, v in zip(fields[len(fields) - len(dv) :], dv):
+            cls.attrs[f_] = v
+    cls.mro = [cls, ExtRef("builtins.tuple"), ExtRef("builtins.object")]
+    return cls
 
 
 def _deque(interp, args, kwargs):
@@ -814,7 +935,7 @@ def _re_result(interp, op: str, pattern: Any, text: Any) -> Any:
             m = getattr(_re, op)(pattern, text)
         except _re.error:
             raise interp.exc("ValueError", "bad regular expression")
-        return ExtObj("re.Match", {"text": text}) if m else None
+        return ExtObj("re.Match", {"text": text, "m": m}) if m else None
     interp.emit("assumed", what=f"re.{op}({pattern!r}) matches the symbolic string {text!r}")
     return ExtObj("re.Match", {"text": text})
 
@@ -822,7 +943,12 @@ def _re_result(interp, op: str, pattern: Any, text: Any) -> Any:
 def _re_call(op):
     def f(interp, args, kwargs):
         interp.emit("regex", pattern=args[0] if args else None, op=op)
-        if op in ("sub", "subn", "split", "findall"):
+        if op in ("sub", "subn", "split", "findall", "escape"):
+            from . import models_std
+            import re as _re
+
+            if all(models_std.is_concrete(a) for a in args) and all(models_std.is_concrete(v) for v in kwargs.values()):
+                return models_std.host_call(interp, getattr(_re, op), args, kwargs)
             return fresh_unknown(f"re.{op}")
         return _re_result(interp, op, args[0] if args else None, args[1] if len(args) > 1 else None)
 
@@ -846,7 +972,7 @@ def _nullcontext(interp, args, kwargs):
 
 
 def _globals(interp, args, kwargs):
-    return ExtObj("globals-dict")
+    return ExtObj("globals-dict", {"module": interp.site[0] if interp.site else None})
 
 
 def _vars(interp, args, kwargs):
@@ -1057,12 +1183,92 @@ def _bytesio(interp, args, kwargs):
         interp.emit("materialise", what="io.BytesIO(inp.read())", source=repr(src))
         frames = interp.drain(src.attrs["frames"])
         return ExtObj("io.stream", {"frames": AIter(iter(frames), "frames"), "header": src.attrs["header"], "seekable": True, "buffered": True, "pos": 0, "label": "bytesio", "reads": []})
-    if isinstance(data, bytes):
-        return ExtObj("io.stream", {"frames": AIter(iter([]), "frames"), "header": data, "seekable": True, "buffered": True, "pos": 0, "label": "bytesio", "reads": []})
+    if isinstance(data, bytes) or (isinstance(data, AList) and data.kind == "bytearray"):
+        import io as _io
+
+        return ExtObj("io.host", {"obj": _io.BytesIO(bytes(data.items) if isinstance(data, AList) else data), "pyclass": "BytesIO"})
     raise interp.unsupported(f"io.BytesIO({data!r})")
 
 
+def _exitstack(interp, args, kwargs):
+    return ExtObj("contextlib.ExitStack", {"stack": []})
+
+
+def _exitstack_method(interp, o: ExtObj, name: str, args: list, kwargs: dict) -> Any:
+    if name == "enter_context":
+        entered, exit_fn = interp.cm_enter(args[0])
+        o.attrs["stack"].append(exit_fn)
+        return entered
+    if name == "callback":
+        fn, cargs, ckw = args[0], list(args[1:]), dict(kwargs)
+
+        def run(_pr: Any) -> bool:
+            interp.call(fn, cargs, ckw)
+            return False
+
+        o.attrs["stack"].append(run)
+        return fn
+    if name == "push":
+        cm = args[0]
+        if isinstance(cm, Obj) and interp.lookup_class_attr(cm.cls, "__exit__") is not MISSING:
+            def run_exit(pr: Any) -> bool:
+                if pr is None:
+                    interp.call(interp.getattr(cm, "__exit__"), [None, None, None], {})
+                    return False
+                e = pr.exc
+                etype: Any = e.cls if isinstance(e, Obj) else ExtRef("builtins." + interp.exc_class_name(e))
+                return interp.truth(interp.call(interp.getattr(cm, "__exit__"), [etype, e, None], {}), "__exit__")
+
+            o.attrs["stack"].append(run_exit)
+            return cm
+        raise interp.unsupported("ExitStack.push of a plain callable")
+    if name == "close":
+        _e, exit_fn = interp.cm_enter(o)
+        exit_fn(None)
+        return None
+    if name == "pop_all":
+        new = ExtObj("contextlib.ExitStack", {"stack": list(o.attrs["stack"])})
+        o.attrs["stack"].clear()
+        return new
+    if name in ("__enter__",):
+        return o
+    raise interp.unsupported(f"ExitStack method {name}")
+
+
+def _hostio_method(interp, o: ExtObj, name: str, args: list, kwargs: dict) -> Any:
+    """io.BytesIO / io.BufferedReader over *concrete* bytes: the host object itself (path-local, deterministic)."""
+    from . import models_std
+
+    host = o.attrs["obj"]
+    if name in ("__enter__",):
+        return o
+    if name in ("raw", "detach"):
+        raise interp.unsupported(f"{name} on a concrete in-memory stream")
+    plain = []
+    for a in args:
+        if isinstance(a, AList) and a.kind == "bytearray":
+            if name == "readinto":
+                buf = bytearray(a.items)
+                n = host.readinto(buf)
+                a.items[:] = list(buf)
+                return n
+            plain.append(bytes(a.items))
+        elif models_std.is_concrete(a):
+            plain.append(a)
+        else:
+            raise interp.unsupported(f"{name}({a!r}) on a concrete in-memory stream")
+    m = getattr(host, name, None)
+    if m is None or name.startswith("_"):
+        raise interp.exc("AttributeError", f"'{type(host).__name__}' object has no attribute '{name}'")
+    interp.emit("io", method=name, recv=o, n=plain[0] if plain else None, exact=True, wrapper=False, raw_after_wrap=False)
+    return models_std.host_call(interp, m, plain, {k_: v_ for k_, v_ in kwargs.items()})
+
+
 def _buffered_reader(interp, args, kwargs):
+    if args and isinstance(args[0], ExtObj) and args[0].kind == "io.host":
+        import io as _io
+
+        return ExtObj("io.host", {"obj": _io.BufferedReader(args[0].attrs["obj"]), "pyclass": "BufferedReader"})
     raw = args[0]
     interp.emit("wrap", raw=raw)
     if isinstance(raw, ExtObj):
@@ -1121,6 +1327,7 @@ _EXT = {
     "contextlib.suppress": _suppress,
     "collections.OrderedDict": _ordereddict,
     "collections.deque": _deque,
+    "collections.namedtuple": _namedtuple,
     "itertools.chain": _chain,
     "itertools.chain.from_iterable": _chain_from_iterable,
     "functools.singledispatch": _singledispatch,
@@ -1129,6 +1336,7 @@ _EXT = {
     "google.protobuf.proto.parse": _parse,
     "google.protobuf.proto.serialize_length_prefixed": _serialize_length_prefixed,
     "io.BufferedReader": _buffered_reader,
+    "contextlib.ExitStack": _exitstack,
     "io.BufferedWriter": _buffered_writer,
     "io.BytesIO": _bytesio,
     "builtins.tuple.__new__": _tuple_new,
@@ -1136,19 +1344,22 @@ _EXT = {
     "builtins.map": _b_map,
     "builtins.filter": _b_filter,
     "builtins.abs": _b_abs,
-    "builtins.callable": _b_callable,
     "builtins.chr": _b_chr,
     "builtins.ord": _b_ord,
     "functools.partial": _partial,
     "functools.cache": lambda i, a, k: _mark_cached(a[0]) if a and isinstance(a[0], FuncRef) else ExtObj("cache_decorator"),
     "functools.lru_cache": lambda i, a, k: (_mark_cached(a[0]) if a and isinstance(a[0], FuncRef) else ExtObj("cache_decorator")),
-    "functools.wraps": lambda i, a, k: ExtRef("jstat.identity_decorator"),
     "itertools.islice": _islice,
     "itertools.groupby": _groupby,
     "collections.defaultdict": _defaultdict,
     "copy.copy": _copy,
     "dataclasses.replace": _dc_replace,
     "re.compile": _re_compile,
+    "re.escape": _re_call("escape"),
+    "re.split": _re_call("split"),
+    "re.sub": _re_call("sub"),
+    "re.subn": _re_call("subn"),
+    "re.findall": _re_call("findall"),
     "re.match": _re_call("match"),
     "re.fullmatch": _re_call("fullmatch"),
     "re.search": _re_call("search"),
@@ -1192,6 +1403,10 @@ def ext_entity(interp, full: str) -> Any:
 
 def getattr_ext(interp, obj: Any, name: str) -> Any:
     if isinstance(obj, ExtRef):
+        if name in ("__name__", "__qualname__"):
+            return obj.name.split(".")[-1]
+        if name == "__module__":
+            return obj.name.rsplit(".", 1)[0]
         full = f"{obj.name}.{name}"
         return ext_entity(interp, CANON.get(full, full))
     if isinstance(obj, Msg):
@@ -1218,6 +1433,10 @@ def getattr_ext(interp, obj: Any, name: str) -> Any:
         return ExtMethod(obj, "bytes", name)
     if isinstance(obj, tuple):
         return ExtMethod(obj, "tuple", name)
+    if isinstance(obj, (int, float)) and not isinstance(obj, EnumInt):
+        if name in ("real", "imag", "numerator", "denominator"):
+            return getattr(obj, name)
+        return ExtMethod(obj, "number", name)
     if isinstance(obj, (GenObj, AIter, SymIter)):
         if name in ("__next__", "__iter__", "close", "send", "throw"):
             return ExtMethod(obj, "iterator", name)
@@ -1227,10 +1446,17 @@ def getattr_ext(interp, obj: Any, name: str) -> Any:
             return ExtMethod(obj, "property", name)
         if name in ("cache_clear", "cache_info") and obj.cached:
             return ExtMethod(obj, "cached_fn", name)
+        w = getattr(obj, "wrapped", None)
+        if w is not None and name in ("__name__", "__qualname__", "__doc__", "__wrapped__"):
+            return w if name == "__wrapped__" else interp.getattr(w, name)
         if name == "__name__":
             return obj.info.name
         if name == "__qualname__":
             return obj.info.qualname
+        if name == "__doc__":
+            import ast as _ast
+
+            return _ast.get_docstring(obj.info.node) if not isinstance(obj.info.node, _ast.Lambda) else None
         raise interp.exc("AttributeError", name)
     if isinstance(obj, BoundMethod):
         if name == "__self__":
@@ -1242,7 +1468,19 @@ def getattr_ext(interp, obj: Any, name: str) -> Any:
         if obj.kind.startswith("exc:"):
             if name == "args":
                 return obj.attrs.get("args", ())
+            if name in ("__cause__", "__context__", "__traceback__"):
+                return obj.attrs.get(name)
+            if name == "__class__":
+                return ExtRef("builtins." + obj.kind[4:])
+            if name in obj.attrs:
+                return obj.attrs[name]
             raise interp.exc("AttributeError", name)
+        if obj.kind == "dataclasses.Field" and name in obj.attrs:
+            return obj.attrs[name]
+        if obj.kind in ("contextlib.ExitStack", "io.host", "collections.ChainMap", "re.Match"):
+            if obj.kind == "collections.ChainMap" and name == "maps":
+                return obj.attrs["maps"]
+            return ExtMethod(obj, obj.kind, name)
         if obj.kind.startswith("rdflib"):
             from . import models_rdflib
 
@@ -1541,7 +1779,15 @@ def call_method(interp, em: ExtMethod, args: list, kwargs: dict) -> Any:
     if k == "dict":
         return _dict_method(interp, em.recv, em.name, args, kwargs)
     if k == "str":
-        return _str_method(interp, em.recv, em.name, args, kwargs)
+        try:
+            return _str_method(interp, em.recv, em.name, args, kwargs)
+        except AnalysisError:
+            from . import models_std
+
+            r = models_std.concrete_method(interp, em.recv, em.name, args, kwargs)
+            if r is models_std.MISSING:
+                raise
+            return r
     if k == "msg":
         return msg_method(interp, em.recv, em.name, args, kwargs)
     if k == "msgclass":
@@ -1565,10 +1811,52 @@ def call_method(interp, em: ExtMethod, args: list, kwargs: dict) -> Any:
             raise interp.exc("ValueError", "tuple.index(x): x not in tuple")
         if em.name == "count":
             return sum(1 for x in em.recv if interp.truth(interp.eq(x, args[0]), "tuple.count"))
+        raise interp.unsupported(f"tuple method {em.name}")
+    if k == "namedtuple":
+        o = em.recv
+        ntc = next(c for c in o.cls.mro if isinstance(c, ClassInfo) and c.is_namedtuple)
+        if em.name == "_asdict":
+            return ADict([[n_, v_] for n_, v_ in zip(ntc.nt_fields, o.tuple_items)])
+        if em.name == "_replace":
+            vals = dict(zip(ntc.nt_fields, o.tuple_items))
+            for k_, v_ in kwargs.items():
+                if k_ not in vals:
+                    raise interp.exc("ValueError", f"Got unexpected field names: ['{k_}']")
+                vals[k_] = v_
+            return interp.instantiate(o.cls, [], vals)
+        return call_method(interp, ExtMethod(tuple(o.tuple_items), "tuple", em.name), args, kwargs)
+    if k == "namedtuple_cls":
+        return interp.instantiate(em.recv, list(interp.drain(args[0])), {})
+    if k == "contextlib.ExitStack":
+        return _exitstack_method(interp, em.recv, em.name, args, kwargs)
+    if k == "io.host":
+        return _hostio_method(interp, em.recv, em.name, args, kwargs)
+    if k == "collections.ChainMap":
+        o = em.recv
+        if em.name == "get":
+            try:
+                return getitem(interp, o, args[0])
+            except PyRaise:
+                return args[1] if len(args) > 1 else None
+        if em.name in ("keys", "__iter__"):
+            seen = ADict([])
+            for m_ in reversed(o.attrs["maps"].items):
+                for k_, v_ in m_.pairs:
+                    if dict_find(interp, seen, k_) is None:
+                        seen.pairs.append([k_, v_])
+            return AList([k_ for k_, _ in seen.pairs])
+        if em.name == "new_child":
+            return ExtObj("collections.ChainMap", {"maps": AList([args[0] if args else ADict([])] + list(o.attrs["maps"].items))})
+        raise interp.unsupported(f"ChainMap method {em.name}")
     if k == "set":
         return _set_method(interp, em.recv, em.name, args, kwargs)
-    if k == "bytes":
-        raise interp.unsupported(f"bytes method {em.name}")
+    if k in ("bytes", "tuple", "number"):
+        from . import models_std
+
+        r = models_std.concrete_method(interp, em.recv, em.name, args, kwargs)
+        if r is models_std.MISSING:
+            raise interp.unsupported(f"{k} method {em.name} on {em.recv!r} with {args!r}")
+        return r
     if k == "iterator":
         if em.name == "__next__":
             return _b_next(interp, [em.recv], {})
@@ -1576,10 +1864,21 @@ def call_method(interp, em: ExtMethod, args: list, kwargs: dict) -> Any:
             return em.recv
         if em.name == "close":
             if isinstance(em.recv, GenObj):
+                if em.recv.started and not em.recv.done:
+                    em.recv.host.close()  # GeneratorExit at the suspended yield: finally blocks of the body run
                 em.recv.done = True
             return None
         if em.name == "send":
-            raise interp.unsupported("generator.send")
+            if not isinstance(em.recv, GenObj):
+                raise interp.unsupported("send() on a non-generator iterator")
+            if not em.recv.started and args[0] is not None:
+                raise interp.exc("TypeError", "can't send non-None value to a just-started generator")
+            ok, v = interp.next_value(em.recv, send=args[0])
+            if not ok:
+                raise interp.exc("StopIteration", em.recv.retval)
+            return v
+        if em.name == "throw":
+            raise interp.unsupported("generator.throw")
     if k == "ext_init":
         return None
     if k in ("io.stream", "io.BufferedReader", "io.out", "io.BufferedWriter", "bytes:frame", "bytes:all", "bytes:header"):
@@ -1614,8 +1913,25 @@ def call_method(interp, em: ExtMethod, args: list, kwargs: dict) -> Any:
     if k == "re.Pattern":
         interp.emit("regex", pattern=em.recv.attrs.get("pattern"), op=em.name)
         if em.name in ("sub", "subn", "split", "findall"):
+            from . import models_std
+            import re as _re
+
+            pat = em.recv.attrs.get("pattern")
+            if isinstance(pat, str) and all(models_std.is_concrete(a) for a in args):
+                return models_std.host_call(interp, getattr(_re.compile(pat), em.name), args, kwargs)
             return fresh_unknown(f"re.{em.name}")
         return _re_result(interp, em.name, em.recv.attrs.get("pattern"), args[0] if args else None)
+    if k == "re.Match":
+        from . import models_std
+
+        m_ = em.recv.attrs.get("m")
+        if m_ is not None and em.name in ("group", "groups", "groupdict", "start", "end", "span", "expand") and all(models_std.is_concrete(a) for a in args):
+            return models_std.host_call(interp, getattr(m_, em.name), args, kwargs)
+        if em.name in ("group", "__getitem__"):
+            return sstr(Atom(f"re.group{args!r}", nonempty=None))
+        if em.name in ("start", "end"):
+            return fresh_unknown(f"match.{em.name}")
+        raise interp.unsupported(f"re.Match method {em.name} on a symbolic match")
     if k == "lock":
         interp.emit("lock", method=em.name)
         return True if em.name == "acquire" else None
@@ -1684,9 +2000,7 @@ def _list_method(interp, lst: AList, name: str, args: list, kwargs: dict) -> Any
         return None
     if name == "sort":
         _mut(interp, lst, "sort")
-        interp.emit("reorder", what="list.sort")
-        if all(isinstance(x, (int, str)) for x in items) and "key" not in kwargs:
-            items.sort(reverse=bool(kwargs.get("reverse", False)))
+        items[:] = sort_items(interp, list(items), kwargs.get("key"), kwargs.get("reverse"), "list.sort")
         return None
     if name == "remove":
         _mut(interp, lst, "remove")
@@ -1705,6 +2019,14 @@ def _list_method(interp, lst: AList, name: str, args: list, kwargs: dict) -> Any
 
 
 def _dict_method(interp, d: ADict, name: str, args: list, kwargs: dict) -> Any:
+    if d.kind == "Counter" and name in ("most_common", "elements", "total"):
+        if name == "total":
+            return sum(v for _k, v in d.pairs)
+        if name == "elements":
+            return AIter(iter([k for k, v in d.pairs for _ in range(v)]), "Counter.elements")
+        order = sorted(range(len(d.pairs)), key=lambda i: -d.pairs[i][1])
+        n = args[0] if args else None
+        return AList([(d.pairs[i][0], d.pairs[i][1]) for i in (order if n is None else order[:n])])
     if name == "get":
         i = dict_find(interp, d, args[0])
         if i is None:
@@ -1832,13 +2154,14 @@ def _rpartition(interp, s: Any, sep: str, right: bool = True) -> Any:
 
 
 def _str_method(interp, s: Any, name: str, args: list, kwargs: dict) -> Any:
-    if isinstance(s, str) and all(isinstance(a, (str, int, tuple)) or a is None for a in args) and name not in ("join", "format", "encode"):
-        if not hasattr(str, name):
-            raise interp.exc("AttributeError", f"'str' object has no attribute '{name}'")
-        try:
-            return getattr(s, name)(*args, **kwargs)
-        except (ValueError, TypeError) as e:
-            raise interp.exc(type(e).__name__, str(e))
+    if isinstance(s, str):
+        from . import models_std
+
+        if name == "join" and args and not isinstance(args[0], (AList, tuple)):
+            args = [AList(interp.drain(args[0]))] + list(args[1:])
+        r = models_std.concrete_method(interp, s, name, args, kwargs)
+        if r is not models_std.MISSING:
+            return r
     if name == "rpartition":
         if not isinstance(args[0], str):
             raise interp.unsupported("rpartition with symbolic separator")
@@ -2091,6 +2414,8 @@ def getitem(interp, base: Any, idx: Any) -> Any:
     if isinstance(base, ADict):
         i = dict_find(interp, base, idx)
         if i is None:
+            if base.kind == "Counter":
+                return 0
             if base.kind == "defaultdict" and getattr(base, "factory", None) is not None:
                 v = interp.call(base.factory, [], {})  # type: ignore[attr-defined]
                 _mut(interp, base, "defaultdict-missing")
@@ -2103,6 +2428,21 @@ def getitem(interp, base: Any, idx: Any) -> Any:
         return base[_norm_index(interp, len(base), idx, "string")]
     if isinstance(base, bytes):
         return base[_norm_index(interp, len(base), idx, "bytes")]
+    if isinstance(base, ExtObj) and base.kind == "collections.ChainMap":
+        for m_ in base.attrs["maps"].items:
+            i = dict_find(interp, m_, idx)
+            if i is not None:
+                return m_.pairs[i][1]
+        raise interp.exc("KeyError", idx)
+    if isinstance(base, ExtObj) and base.kind == "globals-dict" and isinstance(idx, str):
+        ns = interp.module_ns(base.attrs["module"])
+        if idx in ns:
+            return ns[idx]
+        raise interp.exc("KeyError", idx)
+    if isinstance(base, ClassInfo) and base.is_enum:
+        if isinstance(idx, str) and idx in base.enum_members:
+            return base.attrs[idx]
+        raise interp.exc("KeyError", idx)
     if isinstance(base, ExtObj) and base.kind == "bytes:header":
         d = base.attrs["data"]
         return d[_norm_index(interp, len(d), idx, "bytes")]
@@ -2263,9 +2603,15 @@ def ext_base_attr(interp, obj: Obj, eb: ExtRef, name: str) -> Any:
         from . import models_rdflib
 
         return models_rdflib.ext_base_attr(interp, obj, eb, name)
-    if n == "builtins.tuple":
+    if n in ("builtins.tuple", "typing.NamedTuple"):
         if name == "__new__":
             return ExtMethod(obj, "tuple_new", "__new__")
+        if obj.tuple_items is not None and name in ("_replace", "_asdict", "index", "count"):
+            return ExtMethod(obj, "namedtuple", name)
+        if name == "_fields":
+            ntc = next((c for c in obj.cls.mro if isinstance(c, ClassInfo) and c.is_namedtuple), None)
+            if ntc is not None:
+                return tuple(ntc.nt_fields)
         return MISSING
     if name == "__init__":
         if n.startswith("builtins.") and _is_exc_name(n.split(".")[-1]):
@@ -2279,6 +2625,10 @@ def ext_base_attr(interp, obj: Obj, eb: ExtRef, name: str) -> Any:
 
 
 def ext_class_attr(interp, cls: ClassInfo, eb: ExtRef, name: str) -> Any:
+    if name == "_fields" and any(isinstance(c, ClassInfo) and c.is_namedtuple for c in cls.mro):
+        return tuple(next(c for c in cls.mro if isinstance(c, ClassInfo) and c.is_namedtuple).nt_fields)
+    if name == "_make" and any(isinstance(c, ClassInfo) and c.is_namedtuple for c in cls.mro):
+        return ExtMethod(cls, "namedtuple_cls", "_make")
     if eb.name == "builtins.tuple" and name == "__new__":
         return ExtMethod(cls, "tuple_new", "__new__")
     if name == "__init__":
@@ -2377,6 +2727,21 @@ def contains_ext(interp, container: Any, item: Any) -> Any:
         return models_rdflib.contains(interp, container, item)
     if container is None:
         raise interp.exc("TypeError", "argument of type 'NoneType' is not iterable")
+    if isinstance(container, ExtObj) and container.kind == "globals-dict" and container.attrs.get("module") and isinstance(item, str):
+        return item in interp.module_ns(container.attrs["module"])
+    if isinstance(container, ExtObj) and container.kind == "collections.ChainMap":
+        return any(interp.truth(interp.contains(m_, item), "ChainMap.in") for m_ in container.attrs["maps"].items)
+    if isinstance(container, (str, bytes)) and isinstance(item, type(container)):
+        return item in container
+    if isinstance(container, Obj):
+        return interp.contains(tuple(interp.drain(container)), item)
+    if isinstance(container, (GenObj, AIter, SymIter)):
+        while True:
+            ok, x = interp.next_value(container)
+            if not ok:
+                return False
+            if interp.truth(interp.eq(x, item), "in-iterator"):
+                return True
     raise interp.unsupported(f"membership in {container!r}")
 
 
